@@ -621,6 +621,15 @@ def rule_data_presence_witness(chk, repo, rid):
     chk.ob(rid, f"{ci.qual}.store_metadata", not (rp & wp),
            f"metadata is written under prefix {sorted(wp)} and data is read from prefix {sorted(rp)} (disjoint)",
            sm, mod, key="witness")
+    gcfg = CFG(g)
+    fb = [c for c in calls_in(g, tail="from_bytes")]
+    if not fb:
+        raise AnalysisError("FileCache.get: from_bytes call not found")
+    for r in [r for r in returns_of(g) if not is_none_const(r.value)]:
+        ok = gcfg.must_pass(gcfg.entry, gcfg.node_of(r), [gcfg.node_of(fb[0])])
+        chk.ob(rid, f"{ci.qual}.get", ok, "a state is returned only after the data file was read and decoded"
+               if ok else "a state can be returned without reading the data file (metadata-only entry served as data None)",
+               r, mod, key="decode-before-return")
     # ---- SQL: store_metadata inserts NULL state_data; get decodes inside a handler that yields None
     ci = repo.cls(CACHE, "SQLCache")
     _, sm = ci.find_method("store_metadata")
@@ -1252,20 +1261,27 @@ def rule_ready_marker_order(chk, repo, ev, ea, rid):
                   "write (or both are one statement); at evaluator level a READY store_metadata before cache.store is "
                   "harmless only for back-ends with a data-presence witness")
     mod = repo.module(CACHE)
-    # FileCache.store: order of metadata (marker) write and data write
+    # FileCache.store: the marker (status-ready metadata) may precede the data only if the data file is
+    # published atomically (temporary file + replace) - get() serves the data file whenever it exists
+    from .fsproto import write_effects, FINAL, TEMP, ctor_kind
     ci = repo.cls(CACHE, "FileCache")
     fn = ci.methods.get("store")
-    cfg = CFG(fn)
+    cfg, effs = write_effects(fn)
     md = [c for c in calls_in(fn, tail="store_metadata") if call_recv(c) == "self"]
-    data = [c for c in calls_in(fn, tail="write")] + [c for c in calls_in(fn, tail="open") if is_write_open(c)]
-    if not md or not data:
+    data_w = [e for e in effs if e.kind == "write"]
+    if not md or not data_w:
         raise AnalysisError("FileCache.store: marker/data writes not recognised")
     mdn = cfg.node_of(md[0])
-    first_data = min((cfg.node_of(c) for c in data), key=lambda n: cfg.nodes[n].lineno)
-    ok = not cfg.can_reach(mdn, first_data)
+    inplace = [e for e in data_w if e.cls != TEMP]
+    marker_first = any(cfg.can_reach(mdn, e.node) for e in data_w)
+    published = [e for e in effs if e.kind == "replace" and ctor_kind(e.ctor) == "data"]
+    atomic = not inplace and bool(published) and all(
+        cfg.always_followed_by(e.node, [p.node for p in published if p.text == e.text]) and
+        any(p.text == e.text for p in published) for e in data_w)
+    ok = atomic or not marker_first
     chk.ob(rid, f"{ci.qual}.store", ok,
-           "data is written before the status-ready metadata" if ok else
-           "metadata with status 'ready' is written before the data file is (truncated and) written: a concurrent "
+           ("data file is published atomically (temporary file + replace)" if atomic else "data is written before the status-ready metadata") if ok else
+           "metadata with status 'ready' is written before the data file is truncated and written in place: a concurrent "
            "get() in between decodes an empty/partial file as a value", md[0], mod, key="marker-before-data")
     # single-statement back-ends
     for cn, m in (("SQLCache", "store"), ("MemoryCache", "store")):
@@ -1278,3 +1294,60 @@ def rule_ready_marker_order(chk, repo, ev, ea, rid):
         else:
             ws = [n for n in body_walk(f2) if isinstance(n, ast.Assign) and any(isinstance(t, ast.Subscript) and U(t.value).startswith("self.") for t in n.targets)]
             chk.ob(rid, f"{c2.qual}.store", len(ws) == 1, "the entry (metadata + data) is published by one slot assignment", f2, mod, key="atomic")
+
+
+def methods_reaching(ci, target):
+    """Names of methods in ci's MRO that (transitively, through self.<m>() calls) call self.<target>()."""
+    allm = {}
+    for c in reversed(ci.mro()):
+        allm.update(c.methods)
+    callers = {target}
+    changed = True
+    while changed:
+        changed = False
+        for name, fn in allm.items():
+            if name in callers:
+                continue
+            for c in calls_in(fn):
+                if call_recv(c) == "self" and call_tail(c) in callers:
+                    callers.add(name)
+                    changed = True
+                    break
+    return callers
+
+
+def rule_progress_metadata_guard(chk, ev, rid):
+    chk.rule(rid, "progress metadata cannot overwrite a finished cache entry before the lookup: every call made by "
+                  "Context.evaluate before the lookup that can reach Context.store_metadata runs with "
+                  "enable_store_metadata == False")
+    C = "liquer.context.Context.evaluate"
+    ci = ev.repo.cls(CTX, "Context")
+    sm = ci.find_method("store_metadata")[1]
+    if sm is None or "self.enable_store_metadata" not in U(sm.body[0] if sm.body else ""):
+        # the guard field must gate the write
+        if sm is None or "enable_store_metadata" not in U(sm):
+            raise AnalysisError("Context.store_metadata: enable_store_metadata gate not found")
+    S = methods_reaching(ci, "store_metadata")
+    cfg = ev.cfg
+    g = ev.one(ev.get_calls, "cache lookup")
+    gn = ev.node(g)
+    n = 0
+    for c in calls_in(ev.fn):
+        if call_recv(c) == "self" and call_tail(c) in S:
+            cn = cfg.node_of(c)
+            if not cfg.can_reach(cn, gn):
+                continue
+            n += 1
+            ds = cfg.reaching_defs("self.enable_store_metadata", cn)
+            vals = ["<entry>" if d == cfg.entry else U(assigned_value(cfg, d, "self.enable_store_metadata")) for d in ds]
+            ok = vals and all(v == "False" for v in vals)
+            chk.ob(rid, C, ok, f"`{U(c)[:40]}` precedes the lookup with enable_store_metadata in {vals}"
+                   + ("" if ok else ": progress metadata (status not ready) can replace the finished entry, turning the next lookup into a miss"),
+                   c, ev.mod, key="pre-lookup:" + call_tail(c))
+    chk.floor(rid, n, 2, "metadata-writing calls before the lookup")
+    # and it is re-enabled on the miss path before work
+    act = ev.one(ev.action_calls, "evaluate_action call")
+    ds = cfg.reaching_defs("self.enable_store_metadata", ev.node(act))
+    vals = ["<entry>" if d == cfg.entry else U(assigned_value(cfg, d, "self.enable_store_metadata")) for d in ds]
+    chk.ob(rid, C, bool(vals) and all(v == "True" for v in vals), f"progress metadata is enabled again for the miss path ({vals})",
+           act, ev.mod, key="re-enabled")
